@@ -1,8 +1,9 @@
 /- Correspondence driver: one operation per input line, one result per output line. -/
 import SevenZ.Driver.Prim
+import SevenZ.Driver.Header
 open SevenZ.Driver
 
-def handlers : List (String → List String → Option String) := [primHandler]
+def handlers : List (String → List String → Option String) := [primHandler, headerHandler]
 
 def step (line : String) : String :=
   match (line.trimAscii.toString.splitOn " ").filter (· ≠ "") with
